@@ -18,7 +18,9 @@ ASSUMPTIONS = ["zone_ids / cat_ids contain no duplicates", "3-D min/max: every (
                "percentage of a zone without valid cells: NaN or 0 accepted (statement speaks of non-empty rows)"]
 BUDGET_S = {"quick": 150, "thorough": 1200}
 
-ZONE_ALPH = {"int": [-2, 0, 1, 3, 8, 11], "float": [-1.5, 0.0, 0.25, 2.0, 3.0, 7.5]}
+ZONE_ALPH = {"int": [-2, 0, 1, 3, 8, 11], "float": [-1.5, 0.0, 0.25, 2.0, 3.0, 7.5],
+             # large, nearly equal ids (parcel / catchment codes): equality must stay exact
+             "bigint": [100000, 100001, 100002, 2500000, 2500001, -100001], "bigfloat": [100000.0, 100000.5, 100001.0, 1e7, 1e7 + 1]}
 CAT_ALPH = {"int": [0, 1, 2, 5, 7, 9], "float": [0.0, 1.0, 2.5, 5.0, 7.0, -3.0]}
 
 
@@ -200,7 +202,10 @@ def zone_grid(draw, h, w):
     kind = draw(st.sampled_from(["int", "int", "float"]))
     dtype = draw(st.sampled_from(["int32", "int64"])) if kind == "int" else draw(st.sampled_from(["float64", "float32"]))
     nz = draw(st.integers(1, 5))
-    alph = draw(st.permutations(ZONE_ALPH[kind]))[:nz]
+    big = draw(st.integers(0, 5)) == 0
+    if big and kind == "float":
+        dtype = "float64"
+    alph = draw(st.permutations(ZONE_ALPH[("big" + kind) if big else kind]))[:nz]
     specials = ["nan", "inf", "-inf"] if kind == "float" else []
     data = draw(S.grid(h, w, alph, specials=specials))
     return {"dtype": dtype, "data": data}, kind
@@ -239,9 +244,9 @@ def ct2d_cases(draw, max_side):
     zone_ids = cat_ids = None
     mode = draw(st.sampled_from(["none", "z", "c", "zc", "zc"]))
     if "z" in mode and zpres:
-        zone_ids = draw(S.id_list(zpres, extra=[77] if zkind == "int" else [77.5]))
+        zone_ids = draw(S.id_list(zpres, extra=[77, zpres[0] + 0.5, -0.5] if zkind == "int" else [77.5, zpres[0] + 1e-7], dtype=zones["dtype"]))
     if "c" in mode and cpres:
-        cat_ids = draw(S.id_list(cpres, extra=[42] if ckind == "int" else [42.5]))
+        cat_ids = draw(S.id_list(cpres, extra=[42, cpres[0] + 0.5] if ckind == "int" else [42.5, cpres[0] + 1e-7], dtype=vdtype))
     case = {"sub": "ct2d", "zones": zones, "values": values, "nodata": nodata, "zone_ids": zone_ids, "cat_ids": cat_ids,
             "agg": draw(st.sampled_from(["count", "percentage"])),
             "zones_layout": draw(st.sampled_from(["C", "C", "F", "view"])), "values_layout": draw(st.sampled_from(["C", "C", "F", "view"]))}
